@@ -1,10 +1,15 @@
 Require Extraction.
 Require Import ExtrOcamlBasic.
-From Zix Require Import AvlSpec AvlModel.
+From Zix Require Import AvlSpec AvlModel AvlHeapModel.
 Separate Extraction
   AvlSpec.sins AvlSpec.sfind AvlSpec.sremove AvlSpec.slookup AvlSpec.sbegin AvlSpec.srbegin
   AvlSpec.snext AvlSpec.sprev AvlSpec.sp_insert AvlSpec.sp_remove AvlSpec.sp_size
   AvlModel.elems AvlModel.ids AvlModel.height AvlModel.count
   AvlModel.insert AvlModel.remove AvlModel.tfind AvlModel.ins_log
   AvlModel.leftmost AvlModel.rightmost AvlModel.tnext AvlModel.tprev AvlModel.walk_fwd AvlModel.walk_bwd
-  AvlModel.path_to AvlModel.node_class AvlModel.lookup AvlModel.free_log AvlModel.init AvlModel.run.
+  AvlModel.path_to AvlModel.node_class AvlModel.lookup AvlModel.free_log AvlModel.init AvlModel.run
+  AvlHeapModel.hget AvlHeapModel.left AvlHeapModel.right AvlHeapModel.parent AvlHeapModel.bal
+  AvlHeapModel.hinit AvlHeapModel.fuel_of AvlHeapModel.h_insert AvlHeapModel.h_remove AvlHeapModel.h_tfind
+  AvlHeapModel.h_begin AvlHeapModel.h_rbegin AvlHeapModel.h_iter_next AvlHeapModel.h_iter_prev
+  AvlHeapModel.h_walk_fwd AvlHeapModel.h_walk_bwd AvlHeapModel.h_lookup AvlHeapModel.h_path_up
+  AvlHeapModel.h_run.
